@@ -284,7 +284,7 @@ def run(P, R, tier):
     C20.run(P, sub, tier)
     k = 0
     for o in sub.obs:
-        if o.rule in ('C20.d', 'C20.f') or (o.rule == 'C20.e' and 'meta_nonempty' in o.detail):
+        if o.rule in ('C20.d', 'C20.f') or (o.rule == 'C20.e' and ('meta_nonempty' in o.detail or '__finalize__' in o.detail)):
             k += 1
             R._add('C06.d', (o.path, o.site.split('::')[-1]), None, o.status, o.detail, construct=o.construct)
     R.floor('C06.d', 'active-geometry provenance obligations shared with C20', k, 4)
